@@ -69,27 +69,32 @@ func bset3() []*big.Int { return []*big.Int{big.NewInt(0), big.NewInt(1), new(bi
 // ---------------------------------------------------------------------------------------
 
 type kase struct {
-	Part   string            `json:"part"`
-	Fork   string            `json:"fork"`
-	Entry  string            `json:"entry"`          // call | static | create | precompile | probe | bomb
-	Self   string            `json:"self,omitempty"` // "" = plain contract address, "miner" = account of a genesis validator
-	Bal    bool              `json:"bal,omitempty"`  // give the contract a balance of 100 coins (operations that move value)
-	Code   string            `json:"code,omitempty"` // hex: runtime code (call/static) or init code (create)
-	Input  string            `json:"input,omitempty"`
-	Gas    uint64            `json:"gas"`
-	Value  string            `json:"value,omitempty"`
-	Expect string            `json:"expect,omitempty"` // structural expectation, see judge()
-	Note   string            `json:"note,omitempty"`
-	Op     int               `json:"op,omitempty"`    // op under test (parts op / probe / bomb)
-	NArgs  int               `json:"nargs,omitempty"` // pushes between the two readings of a sandwich
-	Pre    int               `json:"pre,omitempty"`   // precompile number
-	Stack  []string          `json:"stack,omitempty"` // probe: operand stack bottom first (hex)
-	MemLen uint64            `json:"memlen,omitempty"`
-	Bound  uint64            `json:"bound,omitempty"` // loop programs: iterations the gas limit can pay for
-	Inner  string            `json:"inner,omitempty"` // read-only family: kind of the inner call made before the write attempt
-	Seq    *seqSpec          `json:"seq,omitempty"`   // part seq: the pair and its identities
-	To     string            `json:"to,omitempty"`    // top-level callee (hex address) when it is not the contract under test
-	Extra  map[string]string `json:"extra,omitempty"` // further contracts: hex address -> hex code
+	Part    string            `json:"part"`
+	Fork    string            `json:"fork"`
+	Entry   string            `json:"entry"`          // call | static | create | precompile | probe | bomb
+	Self    string            `json:"self,omitempty"` // "" = plain contract address, "miner" = account of a genesis validator
+	Bal     bool              `json:"bal,omitempty"`  // give the contract a balance of 100 coins (operations that move value)
+	Code    string            `json:"code,omitempty"` // hex: runtime code (call/static) or init code (create)
+	Input   string            `json:"input,omitempty"`
+	Gas     uint64            `json:"gas"`
+	Value   string            `json:"value,omitempty"`
+	Expect  string            `json:"expect,omitempty"` // structural expectation, see judge()
+	Note    string            `json:"note,omitempty"`
+	Op      int               `json:"op,omitempty"`    // op under test (parts op / probe / bomb)
+	NArgs   int               `json:"nargs,omitempty"` // pushes between the two readings of a sandwich
+	Pre     int               `json:"pre,omitempty"`   // precompile number
+	Stack   []string          `json:"stack,omitempty"` // probe: operand stack bottom first (hex)
+	MemLen  uint64            `json:"memlen,omitempty"`
+	Bound   uint64            `json:"bound,omitempty"`    // loop programs: iterations the gas limit can pay for
+	Inner   string            `json:"inner,omitempty"`    // read-only family: kind of the inner call made before the write attempt
+	Seq     *seqSpec          `json:"seq,omitempty"`      // part seq: the pair and its identities
+	PreAddr string            `json:"pre_addr,omitempty"` // part prelen: precompile address, input length, filling, gas mode
+	Len     int               `json:"len,omitempty"`
+	Len2    int               `json:"len2,omitempty"`
+	Fill    string            `json:"fill,omitempty"`
+	GasMode string            `json:"gas_mode,omitempty"`
+	To      string            `json:"to,omitempty"`    // top-level callee (hex address) when it is not the contract under test
+	Extra   map[string]string `json:"extra,omitempty"` // further contracts: hex address -> hex code
 }
 
 type obs struct {
@@ -111,10 +116,13 @@ type obs struct {
 	Status  string `json:"status,omitempty"`
 	// loop horizon
 	Cancelled bool `json:"cancelled,omitempty"`
+	// prelen
+	Req      uint64 `json:"required_gas,omitempty"`
+	Supplied uint64 `json:"supplied_gas,omitempty"`
 }
 
 func (o obs) key() string {
-	return fmt.Sprintf("%v|%s|%s|%d|%x|%d|%s|%s|%d|%d|%s", o.Panicked, o.Site, o.Kind, o.GasLeft, o.Ret, o.NLogs, o.Root0, o.Root1, o.MemSize, o.DynGas, o.Status) + fmt.Sprint(o.Cancelled)
+	return fmt.Sprintf("%v|%s|%s|%d|%x|%d|%s|%s|%d|%d|%s", o.Panicked, o.Site, o.Kind, o.GasLeft, o.Ret, o.NLogs, o.Root0, o.Root1, o.MemSize, o.DynGas, o.Status) + fmt.Sprint(o.Cancelled, o.Req, o.Supplied)
 }
 
 func errKind(err error) string {
@@ -275,6 +283,8 @@ func execute(k *kase) (o obs) {
 		return o
 	case "probe":
 		return probe(k)
+	case "prelen":
+		return executePrelen(k)
 	}
 	st := freshState(k)
 	// the root of the prepared state depends only on (entry kind, address, code); it is hashed once per such key
@@ -519,6 +529,9 @@ func opName(f string, op int) string {
 func judge(k *kase, o obs) []finding {
 	var fs []finding
 	add := func(sig, msg string) { fs = append(fs, finding{sig, k.Part, msg}) }
+	if k.Entry == "prelen" {
+		return judgePrelen(k, o)
+	}
 	if o.Panicked {
 		add("C11:panic:"+o.Site, fmt.Sprintf("host panic %q at %s while executing contract code (%s)", o.PanicVal, o.Site, k.Note))
 		return fs
@@ -911,6 +924,7 @@ func main() {
 			"(jump) jump-analysis boundary programs PUSH1 t JUMP | PUSH1 1 PUSH1 t JUMPI, STOP filler, JUMPDEST after the header and before the tail, tail PUSHn (n in {none,1,2,7,8,9,15,16,17,24,31,32}) with k in {0,1,n-1,n} data bytes 0x5b, every total length 6..72, targets = both real JUMPDESTs (must succeed) and the first/last push-data byte (must be an invalid jump), as contract code and as init code; " +
 			"(readonly) for every write-class operation of the jump table (writes flag, TSTORE, CALL with value) a frame [inner STATICCALL/CALL/DELEGATECALL/CALLCODE to {returning contract, reverting contract, codeless account, precompile} or none]; OP(1,..) entered by evm.StaticCall directly, and by STATICCALL from wrappers at static nesting 1 and 2 (entered through evm.StaticCall and through evm.Call), on both tables: the frame must fail with write protection, return no gas, no logs, state root unchanged; " +
 			"(seq) non-initial state: every ordered pair (X,Y) of a 14-code fault alphabet (valid/invalid jumps in short and long codes whose classification of offset 96 differs, jump into push data, jump beyond code, JUMPI, stack under/overflow, invalid opcode, out of gas, revert, store, return) x identities {CALL to deployed code, CREATE init code, CREATE2 init code}^2 x driver entered by evm.Call or as constructor by evm.Create, both tables: Y after X in one top-level call must give the flag, return data and (CALL) gas cost of Y run first in a fresh EVM, and a failed Y the state of X followed by a canonical failing frame; " +
+			"(prelen) every address of the VM's precompile map x input lengths {0..260} u {u*k+d: u in {32,64,96,128,160,192,213,256,288,384,416,512}, k in {1,2,3,16,127,128,129,130,255,256,257,1024}, d in {-1,0,1}} x contents {zero, 0xff, 0x01-pattern}: RequiredGas, RunPrecompiledContract with gas 0 and RequiredGas-1 (must be out of gas), with RequiredGas and ample gas when the price is <=200k (zero content <=3M) (gas charged must equal RequiredGas), length-only prices must not decrease with the length, and STATICCALL(gas 0 / 300000) with every length <=64 KiB from byte code on both tables; " +
 			"(create) every init code of length <=2 through Create (gas set), CREATE and CREATE2 (sandwich), code-deposit programs for every gas limit in a dense range through Create and through CREATE with an endowment; " +
 			"(pre) each of the 18 precompiles x every input of length <=2 x gas set, modexp length-field triples over a 15-value set x 5 payloads, blake2f rounds/flag/length, 33 boundary lengths x 3 fillings, and CALL/STATICCALL/DELEGATECALL to each precompile with boundary in/out sizes; " +
 			"(gasfn) memorySize+dynamicGas of every memory-touching operation evaluated through a hook without allocating: every (offset,length) pair over a 17-value set up to 2^256-1 x other operands {0,1,max} x memory {0,32B}, and a 2^25-byte grid of offsets/lengths up to 2^37 with bisection at every decrease, the cheapest huge growth found is executed in a sandboxed child process. " +
@@ -963,6 +977,10 @@ func replay(c *fw.Ctx, raw json.RawMessage) {
 		r.runSeq(k.Fork, k.Seq)
 		return
 	}
+	if k.Entry == "prelen-mono" {
+		r.runMono(&k)
+		return
+	}
 	r.run(&k)
 }
 
@@ -986,6 +1004,7 @@ func run(c *fw.Ctx) {
 		{"jump", r.partJump},
 		{"readonly", r.partReadOnly},
 		{"seq", r.partSeq},
+		{"prelen", r.partPrelen},
 		{"create", r.partCreate},
 		{"pre", r.partPrecompiles},
 		{"code", r.partCode},
